@@ -19,20 +19,27 @@ pub struct Case {
 }
 
 pub fn norm(s: &str) -> String {
+    // numbers (decimal and 0x… hexadecimal) become '#', so that signatures do not depend on values
+    let b: Vec<char> = s.chars().collect();
     let mut out = String::new();
-    let mut last_digit = false;
-    for c in s.chars() {
-        if c.is_ascii_digit() {
-            if !last_digit {
-                out.push('#');
+    let mut i = 0;
+    while i < b.len() && out.len() < 90 {
+        if b[i] == '0' && i + 1 < b.len() && b[i + 1] == 'x' {
+            i += 2;
+            while i < b.len() && b[i].is_ascii_hexdigit() {
+                i += 1;
             }
-            last_digit = true;
+            out.push('#');
+        } else if b[i].is_ascii_digit() {
+            while i < b.len() && b[i].is_ascii_digit() {
+                i += 1;
+            }
+            out.push('#');
         } else {
-            last_digit = false;
-            out.push(c);
-        }
-        if out.len() >= 90 {
-            break;
+            if !(b[i] == '\n') {
+                out.push(b[i]);
+            }
+            i += 1;
         }
     }
     out
